@@ -7,6 +7,10 @@
 (*             derive Upgradable; the repository's dummy target does not)    *)
 (*   "Ftriv"   packages/.../testdata/contract_trivial_migration.wasm         *)
 (*   "Fdummy"  contracts/upgrader/tests/testdata/dummy.wasm                  *)
+(*   "Fnover"  harness fixture: code with a `migrate(x)` (any one argument,   *)
+(*             nobody's authorisation) and NO `version` entry point; only     *)
+(*             ever offered as the destination of an Upgrader call, which     *)
+(*             must fail because the final version query cannot succeed       *)
 (* (no wasm32 target offline: upgrade destinations are the pinned fixtures). *)
 (* The behaviour of upgrade/migrate depends on the running code, which is   *)
 (* what the tables below say.  `migrating` is not observable through the    *)
@@ -27,9 +31,10 @@ Order == <<"version_differs", "no_migrate", "migrate_typed", "role_auth", "upgra
            "window", "version_matches_after">>
 
 Derived(code) == (code = "native" /\ Target # "dummy") \/ code = "Ftriv"   \* std upgrade/migrate protocol
-VersionOf(code) == IF code = "Fdummy" THEN "0.2.0" ELSE "0.1.0"
+VersionOf(code) == IF code = "Fdummy" THEN "0.2.0" ELSE IF code = "Fnover" THEN "none" ELSE "0.1.0"
 HasMigrate(code) == ~(code = "native" /\ Target = "dummy")
 DataType(code) == IF code = "Fdummy" THEN "str" ELSE "unit"
+DataOK(code, data) == IF code = "Fnover" THEN data \in {"unit", "str"} ELSE data = DataType(code)
 DataAfter(code, old) == IF code = "Ftriv" THEN "migrated" ELSE IF code = "Fdummy" THEN "str" ELSE old
 
 (* upgrade(new_wasm_hash) *)
@@ -42,8 +47,8 @@ Upgrade(st, a) ==
 (* migrate(migration_data) *)
 MigrateFails(st, data, auth, guard) ==
     (IF ~HasMigrate(st.code) THEN {"no_migrate"} ELSE {})
-    \cup (IF HasMigrate(st.code) /\ data # DataType(st.code) THEN {"migrate_typed"} ELSE {})
-    \cup (IF st.owner \notin auth THEN {guard} ELSE {})
+    \cup (IF HasMigrate(st.code) /\ ~DataOK(st.code, data) THEN {"migrate_typed"} ELSE {})
+    \cup (IF st.code # "Fnover" /\ st.owner \notin auth THEN {guard} ELSE {})
     \cup (IF Derived(st.code) /\ ~st.migrating THEN {"window"} ELSE {})
 MigrateCore(st) ==
     [st EXCEPT !.data = DataAfter(st.code, @), !.migrating = IF Derived(st.code) THEN FALSE ELSE @]
